@@ -225,6 +225,23 @@ def v2args_table(unit):
                     if chain:
                         mem.append(".".join(reversed(chain)))
         S.written = mem
+        # integral casts between the va_arg and the union member that are narrower than the member: the value is cut
+        # before it is stored (`args[k].i = (unsigned char)va_arg(ap, int)` keeps 8 of the 32 bits of an OSC char)
+        S.narrowing = []
+        for s in stmts:
+            for x in A.walk(s):
+                if x.get("kind") == "BinaryOperator" and x.get("opcode") == "=" and any(y.get("kind") == "VAArgExpr" for y in A.walk(A.kids(x)[1])):
+                    mct = FD.ctype(A.qtype(A.kids(x)[0]))
+                    e = A.kids(x)[1]
+                    while e.get("kind") != "VAArgExpr" and A.kids(e):
+                        if e.get("kind") in ("CStyleCastExpr", "ImplicitCastExpr", "CXXStaticCastExpr") and e.get("castKind") == "IntegralCast":
+                            tct = FD.ctype(A.qtype(e))
+                            if tct[0] == "int" and mct[0] == "int" and tct[1] < mct[1]:
+                                S.narrowing.append(A.qtype(e))
+                        nxt = [k_ for k_ in A.kids(e) if any(y.get("kind") == "VAArgExpr" for y in A.walk(k_))]
+                        if not nxt:
+                            break
+                        e = nxt[0]
         if lab == "default":
             dflt = S
         else:
